@@ -263,6 +263,11 @@ impl Check for C16 {
                 projgen::add_cross_package_extern(&mut rev);
                 labels.push("extern-go:called-from-importer".into());
             }
+            // a trait whose impls for another package's types live in the trait's package, used as dyn from a third
+            if d.chance(70) && projgen::add_dyn_third_package(&mut files) {
+                projgen::add_dyn_third_package(&mut rev);
+                labels.push("dyn:impl-in-trait-package-used-from-third".into());
+            }
             let mut with_stray = files.clone();
             with_stray.extend(stray_package());
             let stray = if proj.pkgs.iter().any(|p| p.name == "Omega") { Value::Null } else { patch_of(&files, &with_stray) };
